@@ -338,6 +338,7 @@ def run(ctx: Ctx) -> None:
         _queue_correspondence(ctx, drv, mon)
         _queue_faults(ctx, drv, mon)
         _overlapping_queue_pages(ctx, mon)
+        _slow_broker_queue_page(ctx, mon)
         _post_sensitivity(ctx, mon, post_routes, static)
         _fresh_monitor(ctx, mon, get_routes)
     finally:
@@ -832,6 +833,49 @@ def _overlapping_queue_pages(ctx: Ctx, mon: Monitor) -> None:
                            f"[{kind}] two GET /broker/queue?limit={limit} requests served at the same time on {nmsg} queued messages (HTTP {[r.status_code for r in resps]}) changed the monitored system: "
                            + "; ".join(d[:3]), {"kind": kind, "family": "overlapping-queue-pages", "messages": nmsg, "limit": limit})
     ctx.notes["overlapping_queue_pages"] = n
+
+
+def _slow_broker_queue_page(ctx: Ctx, mon: Monitor) -> None:
+    """the queue page on a broker that STALLS in the middle of the drain (a lock held by another process, a very long queue): the k-th
+    `retrieve_invocation` of the request takes 30 s of wall-clock time.  However long it takes, the page only looks."""
+    import time as _time_mod
+
+    n = 0
+    for kind in ("mem", "sqlite"):
+        for k in ((2,) if ctx.quick else (0, 2, 5)):
+            w = P.World(kind, ctx.tmp, tag="qs")
+            for j in range(6):
+                w.apply(["call", "add", [j, 2]])
+            mon.point_at(w.app)
+            before = P.readout(w)
+            broker = w.app.broker
+            orig = broker.retrieve_invocation
+            real_time = _time_mod.time
+            st = {"n": 0, "offset": 0.0}
+
+            def slow(orig=orig, st=st, k=k):  # type: ignore[no-untyped-def]
+                if st["n"] == k:
+                    st["offset"] += 30.0        # this call took half a minute
+                st["n"] += 1
+                return orig()
+
+            broker.retrieve_invocation = slow  # type: ignore[method-assign]
+            _time_mod.time = lambda: real_time() + st["offset"]  # type: ignore[assignment]
+            try:
+                resp, _served = mon.get("/broker/queue?limit=3")
+            finally:
+                _time_mod.time = real_time  # type: ignore[assignment]
+                del broker.retrieve_invocation
+            after = P.readout(w)
+            n += 1
+            ctx.count()
+            ctx.distinct((kind, "slow-broker-queue-page", k))
+            d = judge(before, after)
+            if d:
+                ctx.report("get-mutates:pynmon.views.broker.queue_view:slow-broker",
+                           f"[{kind}] GET /broker/queue?limit=3 on 6 queued messages while retrieve_invocation call #{k + 1} takes 30 s (HTTP {resp.status_code}) changed the monitored system: "
+                           + "; ".join(d[:3]), {"kind": kind, "family": "slow-broker-queue-page", "slow_call": k})
+    ctx.notes["slow_broker_queue_pages"] = n
 
 
 def _has_record(app, i: str) -> bool:
